@@ -19,7 +19,8 @@ theorem inv_node {c : Cfg} {s : State} (inv : Inv c s) (i : Nat) (nd' : Node) (n
     (cp : ∀ b, b ∈ nd'.myCommits → c.m ≤ countP c.n (preparedBy ⟨upd s.nodes i nd', net'⟩ b))
     (ck : ∀ b, b ∈ nd'.myPreps →
       (i = c.primary b.h b.v → c.propose i b = true) ∧ (i ≠ c.primary b.h b.v → c.verify i b = true))
-    (ch : ∀ b, b ∈ nd'.chain → b.h < nd'.height) :
+    (ch : ∀ b, b ∈ nd'.chain → b.h < nd'.height)
+    (cs : ChainAt nd'.chain nd'.height) :
     Inv c ⟨upd s.nodes i nd', net'⟩ := by
   have g : Grows s ⟨upd s.nodes i nd', net'⟩ := by
     constructor
@@ -35,6 +36,11 @@ theorem inv_node {c : Cfg} {s : State} (inv : Inv c s) (i : Nat) (nd' : Node) (n
       · rw [upd_other _ _ _ hji]; exact h
   constructor
   all_goals intro j
+  case chainShape =>
+    show ChainAt (upd s.nodes i nd' j).chain (upd s.nodes i nd' j).height
+    by_cases hji : j = i
+    · subst hji; rw [upd_same]; exact cs
+    · rw [upd_other _ _ _ hji]; exact inv.chainShape j
   all_goals show ∀ _, _
   all_goals dsimp only
   · intro it h
